@@ -209,7 +209,7 @@ func builtinStringMatch(call FunctionCall) Value {
 	return objectValue(call.runtime.newArrayOf(valueArray))
 }
 
-var builtinStringReplaceRegexp = regexp.MustCompile("\\$(?:[\\$\\&\\'\\`1-9]|0[1-9]|[1-9][0-9])")
+var builtinStringReplaceRegexp = regexp.MustCompile("\\$(?:[\\$\\&\\'\\`]|0[1-9]|[1-9][0-9]|[1-9])")
 
 func builtinStringFindAndReplaceString(input []byte, lastIndex int, match []int, target []byte, replaceValue []byte) []byte {
 	matchCount := len(match) / 2
@@ -234,14 +234,20 @@ func builtinStringFindAndReplaceString(input []byte, lastIndex int, match []int,
 			return nil
 		}
 		matchNumber := int(matchNumberParse)
+		var tail []byte
+		if matchNumber >= matchCount && len(part) == 3 && part[1] != '0' {
+			// There is no such two-digit capture: $n followed by a digit.
+			matchNumber = int(part[1] - '0')
+			tail = part[2:]
+		}
 		if matchNumber >= matchCount {
-			return nil
+			return tail
 		}
 		offset := 2 * matchNumber
 		if match[offset] != -1 {
-			return target[match[offset]:match[offset+1]]
+			return append(append([]byte{}, target[match[offset]:match[offset+1]]...), tail...)
 		}
-		return nil // The empty string
+		return tail // The empty string
 	})
 
 	return append(output, replacement...)
